@@ -46,6 +46,7 @@ from calmjs.parse.unicode_chars import (
 # the dollar sign; \w alone lacks the combining marks and connector
 # punctuations.
 _w = r'(?:\w|' + COMBINING_MARK + r'|' + CONNECTOR_PUNCTUATION + r')'
+word_char = re.compile(_w)
 required_space = re.compile(
     r'^(?:' + _w + _w + r'|\+\+|\-\-|//|' + _w + r'\$|\$' + _w + r')$')
 
@@ -198,7 +199,11 @@ def layout_handler_space_minimum(dispatcher, node, before, after, prev):
     s = before[-1:] + after[:1]
     if required_space.match(s) or (
             isinstance(node, DotAccessor) and after == '.' and
-            integer_literal.match(before)):
+            integer_literal.match(before)) or (
+            # a regex literal without flags followed by a word, which
+            # would be read as its flags.
+            len(before) > 2 and before[0] == before[-1] == '/' and
+            word_char.match(after)):
         yield space_imply
 
 
